@@ -484,6 +484,22 @@ def _cfg_brief(o):
 def oracle_C15(run):
     f = []
     t = run.get('type')
+    if t == 'abnormal':
+        # "... is returned to the caller as an error rather than causing a hang or a panic"
+        try:
+            c = parse_cfg_line(run['cfg']) if run.get('cfg', '').startswith('CFG') else None
+        except Exception:
+            c = None
+        if c is None:
+            if any(k in run.get('cfg', '') for k in ('fail', 'bad_at', 'bad_kind')):
+                f.append('%s on an error path (per-record run): %s' % (run['kind'], run['cfg'][:160]))
+        elif (not c['rinit_ok']) or c['dinit_fail'] is not None or c['script_err']:
+            f.append('%s instead of a returned error: schedule %s of %s' % (run['kind'], run['sched'], run['cfg'][:160]))
+        return f
+    if t in ('rec', 'bb') and not _done(run) and str(run.get('status', '')).split(':')[0] in ('HANG', 'PANIC'):
+        if not _failure_free(run) or _has_error(run):
+            f.append('%s instead of a returned error (%s)' % (run.get('status'), _cfg_brief(run)))
+        return f
     if t == 'proto':
         c = _proto(run)
         ev = c['ev']
@@ -500,6 +516,14 @@ def oracle_C15(run):
         if c['script_err'] and c['no_failure'] and c['consumer'] in ('Drain', 'DrainStopErr'):
             if c['nerr_seen'] != 1:
                 f.append('reader error at index %d: consumer saw it %d times' % (c['k'], c['nerr_seen']))
+        if c['script_err'] and c['no_failure'] and c['consumer'] == 'Drain' and any(e[0] == 'EReturn' for e in ev):
+            # "a consumer that keeps draining receives all earlier sets and then the end marker"
+            got = sorted(x for x, _ in c['delivered'])
+            if got != list(range(c['k'])):
+                f.append('draining consumer received the sets %s, the reader produced 0..%d before its error' % (got, c['k'] - 1))
+            cons = [e for e in ev if e[0] == 'EConsume']
+            if cons and cons[-1][1] != 'CNone':
+                f.append('draining consumer did not get the end marker last')
         if c['consumer'] == 'DrainStopErr' and c['nerr_seen']:
             i = max(j for j, e in enumerate(ev) if e[0] == 'EConsume' and e[1] == 'CErr')
             if any(e[0] in ('EConsume', 'EDoneRecv') for e in ev[i + 1:]):
@@ -529,6 +553,10 @@ def oracle_C15(run):
                 f.append('%d sets filled, script has %d' % (o['nfilled'], k))
             if o['script_err'] and _failure_free(o) and o['consumer'] in ('drain', 'stoperr') and len(errs) != 1:
                 f.append('reader error at set %d: consumer saw it %d times' % (k, len(errs)))
+            if o['script_err'] and _failure_free(o) and o['consumer'] == 'drain':
+                got = sorted(int(x[0]) if isinstance(x, (list, tuple)) else int(x) for x in o.get('delivered', o.get('seen', [])))
+                if o.get('delivered') is not None and got != list(range(k)):
+                    f.append('draining consumer received the sets %s, the reader produced 0..%d before its error' % (got, k - 1))
             if o['consumer'] == 'stoperr' and o.get('after_err'):
                 f.append('sets delivered after the consumer stopped at the error')
             f += _init_ret(o, ret)
